@@ -77,11 +77,11 @@ class EEMSRead(Command):
         if "MissingValue" in kwargs:
             missing_value = (
                 int(kwargs["MissingValue"])
-                if numpy.issubdtype(result.mask.dtype, int)
+                if numpy.issubdtype(result.dtype, numpy.integer)
                 else float(kwargs["MissingValue"])
             )
 
-            self.result.mask = numpy.where(result.data == missing_value, True, result.mask or False)
+            result.mask = numpy.where(result.data == missing_value, True, numpy.ma.getmaskarray(result))
 
         result.data[result.mask] = result.fill_value
 
